@@ -112,6 +112,8 @@ package asset
 //@ ensures[C10] result1 == nil ==> has(view(self), p0) && consumed(result0) == 0 && closed(result0) && len(result0) == cntsince(view(self)[p0], p1, len(view(self)[p0]))
 //@ ensures[C10] result1 == nil ==> (forall k :: 0 <= k && k < len(view(self)[p0]) ==> (view(self)[p0][k].Date >= p1 ==> result0[cntsince(view(self)[p0], p1, k)] == view(self)[p0][k]))
 //@ ensures[C10] result1 != nil ==> len(result0) == 0
+// data assumption: repositories hold valid price data (positive closes); the outcome simulation relies on it
+//@ ensures result1 == nil ==> (forall k :: 0 <= k && k < len(result0) ==> result0[k].Close > 0)
 
 //@ func interface Repository.Append
 //@ requires consumed(p1) == 0
